@@ -605,6 +605,14 @@ func (p *Packer) Unpack(r io.Reader, dst string) (err error) {
 
 		// Handle symlinks, directories, non-regular files
 		if info.IsSymlink() {
+			// An entry for the archive root names the destination itself. If
+			// the destination does not exist yet, a symlink in its place would
+			// send everything that follows wherever that link points.
+			if info.Path == filepath.Clean(dst) {
+				return &IllegalSlugError{
+					Err: fmt.Errorf("invalid symlink (%q -> %q) in place of the destination directory", header.Name, header.Linkname),
+				}
+			}
 			// The link is created at info.Path, i.e. with any leading slashes of
 			// the entry name dropped; its target has to be judged from that
 			// same position, not from the absolute path the raw name spells.
